@@ -18,7 +18,9 @@ import (
 	"encoding/json"
 	"io"
 	"os"
+	"syscall"
 	"testing"
+	"time"
 )
 
 func TestVerifPlain(t *testing.T) {
@@ -53,6 +55,7 @@ func TestVerifPlain(t *testing.T) {
 			I      int      `json:"i"`
 			Chunks []string `json:"chunks"`
 			Status []string `json:"status"` /* status / log lines (not Plain), sent after the chunks */
+			Winch  bool     `json:"winch"`  /* run the whole Shell.Do and resize the terminal (SIGWINCH) after every chunk */
 		}
 		if err := json.Unmarshal(sc.Bytes(), &c); nil != err {
 			t.Fatal(err)
@@ -71,10 +74,24 @@ func TestVerifPlain(t *testing.T) {
 			defer cleanup()
 			ctx, cancel := context.WithCancel(context.Background())
 			done := make(chan struct{})
-			go func() { s.handleOutput(ctx); close(done) }()
+			if c.Winch {
+				pr, pw, _ := os.Pipe()
+				realStdin := os.Stdin
+				os.Stdin = pr
+				defer func() { pw.Close(); pr.Close(); os.Stdin = realStdin }()
+				go func() { s.Do(ctx); close(done) }()
+				time.Sleep(20 * time.Millisecond)
+			} else {
+				go func() { s.handleOutput(ctx); close(done) }()
+			}
 			for _, h := range c.Chunks {
 				b, _ := hex.DecodeString(h)
 				och <- CLine{Plain: true, Line: string(b)}
+				if c.Winch {
+					time.Sleep(3 * time.Millisecond)
+					syscall.Kill(os.Getpid(), syscall.SIGWINCH)
+					time.Sleep(3 * time.Millisecond)
+				}
 			}
 			for _, h := range c.Status {
 				b, _ := hex.DecodeString(h)
@@ -83,7 +100,14 @@ func TestVerifPlain(t *testing.T) {
 			/* one more rendezvous: when it is taken, the previous line has been written */
 			och <- CLine{Plain: true, Line: ""}
 			cancel()
-			<-done
+			if c.Winch {
+				select {
+				case <-done:
+				case <-time.After(300 * time.Millisecond): /* ReadLine cannot be interrupted; the pipe is closed on the way out */
+				}
+			} else {
+				<-done
+			}
 			s.silenceTimer.Stop()
 		}()
 		os.Stdout = realStdout
